@@ -223,7 +223,7 @@ def spec_reassemble(ck, functional):
     ex = ck.engine(loop_bound=8)
     ex.overrides.append((re.compile(r'^<T as Fragmentable>::from_buffer$'), _deliver_override))
     st = State()
-    frs, timeout, timer_items, last_deadline = _fragments_state(ex, st)
+    frs, timeout, timer_items, last_deadline = _fragments_state(ex, st, ntimer=3)
     # the clock never runs backwards w.r.t. deadlines already queued minus timeout (deadline_i = now_i + timeout)
     st.env['clock_last'] = simp(last_deadline - timeout.t) if last_deadline is not None else None
     ex.assume(st, z3.UGE(last_deadline, timeout.t))
@@ -250,6 +250,13 @@ def _reassemble_functional(ck, ex, finals, cell, buf, timeout, timer_items):
         m2 = frs2.fields[1]
         tq = frs2.fields[2]
         delivered = [e for e in s.trace if e[0] == 'deliver']
+        # the expiry deque must stay sorted by deadline on EVERY path: Fragments::timer relies on it (partition_point + pop_front)
+        if tq.items is not None:
+            dls = [it.fields[1].fields[0].t for it in tq.items if isinstance(it, Agg)]
+            ex.prove(s, 'C11/reassemble/expiry-deque-stays-sorted-by-deadline',
+                     z3.And([z3.ULE(dls[i], dls[i + 1]) for i in range(len(dls) - 1)]) if len(dls) > 1 else True)
+        else:
+            ex.prove(s, 'C11/reassemble/expiry-deque-stays-sorted-by-deadline', False)
         inserts = [e for e in s.trace if e[0] == 'map.insert']
         removes = [e for e in s.trace if e[0] == 'map.remove']
         single = z3.And(hdr_total == BV(1, 8), hdr_seq == BV(0, 8))
